@@ -127,4 +127,6 @@ def replay_history(system, body):
                       "exception": repr(st.last_exc) if st.last_exc else None,
                       "problems": problems})
         found += problems
+    if hasattr(system, "dispose"):
+        system.dispose(st)
     return {"trace": trace, "violations": [p for p in found]}
